@@ -228,7 +228,7 @@ def make_asint(mod, spec):
 
         def impl(k=k, seen=seen):
             del seen[:]
-            with share.scope(_adapter_modules(mod), intmode=spec.get("mode", "all")) as pool:
+            with share.scope(_adapter_modules(mod), intmode=spec.get("mode", "all"), how=spec.get("how", "int")) as pool:
                 b = _as_list(mod.make(inner))[k]
                 try:
                     rb = b.impl()
@@ -239,7 +239,8 @@ def make_asint(mod, spec):
                             pass
                     return rb
                 finally:
-                    PAIR_STATS.update({"built_as_integer_arrays": pool.stats["built_as_integer_arrays"]})
+                    PAIR_STATS.update({k_: v_ for k_, v_ in pool.stats.items()
+                                       if k_ == "built_as_integer_arrays" or k_.startswith("respelled_")})
 
         def oracle(r, b0=b0, seen=seen):
             out = list(seen)
@@ -260,7 +261,8 @@ def make_asint(mod, spec):
         pspec = dict(spec)
         if len(fresh) > 1:
             pspec["index"] = k
-        out.append(Case(pspec, b0.line, impl, mode=b0.mode, klass="int:" + b0.klass, trivial=b0.trivial,
+        out.append(Case(pspec, b0.line, impl, mode=b0.mode, klass=("int:" if spec.get("how", "int") == "int" else "arg:") + b0.klass,
+                        trivial=b0.trivial,
                         oracle=oracle, compare=compare, scale=b0.scale, rtol=b0.rtol))
     if "index" in spec:
         out = [c for c in out if c.spec.get("index") == spec["index"]]
@@ -293,12 +295,21 @@ def asint_specs(specs, rng, tier):
         return _has_whole_array(s) or any(isinstance(v, str) and ("lattice" in v or "pattern" in v or "exact" in v)
                                           for v in s.values())
     pool = [s for s in specs if isinstance(s, dict) and s.get("op") not in ("pair", "asint") and lattice_like(s)]
-    if not pool:
-        return []
-    cap = 300 if tier == "quick" else 1500
-    n = min(cap, max(20, len(pool) // 6), len(pool))
-    return [{"op": "asint", "mode": "all" if rng.random() < 0.5 else rng.randrange(1 << 16), "spec": s}
-            for s in rng.sample(pool, n)]
+    out = []
+    if pool:
+        cap = 300 if tier == "quick" else 1500
+        n = min(cap, max(20, len(pool) // 6), len(pool))
+        out += [{"op": "asint", "mode": "all" if rng.random() < 0.5 else rng.randrange(1 << 16), "spec": s}
+                for s in rng.sample(pool, n)]
+    # the other spellings of an argument (non-contiguous view, write-protected, column-major) apply to every stream
+    anyspec = [s for s in specs if isinstance(s, dict) and s.get("op") not in ("pair", "asint")]
+    if anyspec:
+        cap = 150 if tier == "quick" else 900
+        n = min(cap, max(15, len(anyspec) // 12), len(anyspec))
+        out += [{"op": "asint", "how": rng.choice(["strided", "readonly", "fortran"]),
+                 "mode": "all" if rng.random() < 0.5 else rng.randrange(1 << 16), "spec": s}
+                for s in rng.sample(anyspec, n)]
+    return out
 
 
 def _shape_sig(x):
@@ -432,7 +443,7 @@ def evaluate(mod, specs, stats, collect_samples=3):
     for c in cases:
         if c.model_only:
             impl_res.append(None)
-        elif intern and not c.klass.startswith("pair:") and not c.klass.startswith("int:"):
+        elif intern and not c.klass.startswith(("pair:", "int:", "arg:")):
             # operation programs: arguments with equal values built at the same adapter call site are one object, as for
             # a caller that passes its `look` vector to two steps (pwlib/share.py, single phase: nothing is overwritten)
             from . import share
@@ -623,7 +634,8 @@ def run_check(mod, tier, seed, replay=None):
                 "known_findings_replayed": list(known_hit.keys()),
                 "exhaustive": bool(getattr(mod, "EXHAUSTIVE", {}).get(tier, False)),
                 "history_pairs": dict(PAIR_STATS, cases=sum(v for k, v in stats["classes"].items() if k.startswith("pair:")),
-                                      integer_dtype_cases=sum(v for k, v in stats["classes"].items() if k.startswith("int:"))),
+                                      integer_dtype_cases=sum(v for k, v in stats["classes"].items() if k.startswith("int:")),
+                                      other_argument_spellings=sum(v for k, v in stats["classes"].items() if k.startswith("arg:"))),
             },
             "assumptions": list(getattr(mod, "ASSUMPTIONS", [])),
             "wall_s": round(wall, 2),
